@@ -524,3 +524,111 @@ Proof.
   rewrite (face_out_fan lt _ st I L34). cbn [rbind].
   rewrite IH. cbn [rbind]. rewrite app_nil_r. reflexivity.
 Qed.
+
+(* ================= recognised groups ================= *)
+Definition upd_ty (ty : option sty) (t : sty) : option sty := match ty with None => Some t | Some _ => ty end.
+Definition scanG (bin : bool) (ps : vprops) (cur : nat) (tyf : option sty) (mo : string * option nat) : option nat :=
+  match offsets_from bin ps (fst mo) cur with
+  | Some (c, t) => if osty_eqb tyf t then Some c else None
+  | None => snd mo
+  end.
+Definition final_ty (ty : option sty) (ms : list string) (ps : vprops) : option sty :=
+  match ty with Some _ => ty | None => first_ty ms ps end.
+
+Lemma scan_members_spec : forall ms offs ty cur t name, length offs = length ms ->
+  scan_members ms offs ty cur t name =
+  (map (fun mo => if seqb name (fst mo) then (if osty_eqb (upd_ty ty t) t then Some cur else None) else snd mo)
+       (combine ms offs),
+   if existsb (seqb name) ms then upd_ty ty t else ty).
+Proof.
+  induction ms as [|m ms IH]; intros [|o offs] ty cur t name L; try discriminate L; [reflexivity|].
+  cbn [scan_members combine map existsb fst snd]. injection L as L.
+  destruct (seqb name m) eqn:E.
+  - rewrite (IH offs _ cur t name L). fold (upd_ty ty t).
+    replace (upd_ty (upd_ty ty t) t) with (upd_ty ty t) by (destruct ty; reflexivity).
+    cbn [orb]. destruct (existsb (seqb name) ms); reflexivity.
+  - rewrite (IH offs ty cur t name L). reflexivity.
+Qed.
+
+Lemma map_snd_combine {A B} : forall (a : list A) (b : list B), length b = length a -> map snd (combine a b) = b.
+Proof. induction a; intros [|y b] L; try discriminate L; [reflexivity|]. simpl. f_equal. apply IHa. simpl in L. lia. Qed.
+
+Lemma combine_map_combine {A B} (h : A * B -> B) : forall (a : list A) (b : list B),
+  combine a (map h (combine a b)) = map (fun mo => (fst mo, h mo)) (combine a b).
+Proof. induction a; intros [|y b]; try reflexivity. simpl. f_equal. apply IHa. Qed.
+
+Lemma offsets_from_none bin name : forall (ps : vprops) cur, ~ In name (names ps) -> offsets_from bin ps name cur = None.
+Proof.
+  induction ps as [|[t n] ps IH]; intros cur NI; [reflexivity|].
+  cbn [offsets_from]. destruct (seqb n name) eqn:E.
+  - apply String.eqb_eq in E. subst. exfalso. apply NI. left. reflexivity.
+  - apply IH. intros I. apply NI. right. exact I.
+Qed.
+
+Lemma final_ty_step ty ms t n ps :
+  final_ty (if existsb (seqb n) ms then upd_ty ty t else ty) ms ps = final_ty ty ms ((t, n) :: ps).
+Proof. destruct ty; cbn [final_ty first_ty upd_ty]; destruct (existsb (seqb n) ms); reflexivity. Qed.
+
+Lemma scan_props_spec bin ms : forall (ps : vprops) cur offs ty,
+  NoDup (names ps) -> length offs = length ms ->
+  scan_props bin ms (scalars ps) cur offs ty =
+  Ok (map (scanG bin ps cur (final_ty ty ms ps)) (combine ms offs), final_ty ty ms ps).
+Proof.
+  induction ps as [|[t n] ps IH]; intros cur offs ty ND L.
+  - cbn [scalars map scan_props]. f_equal. f_equal.
+    + unfold scanG. cbn [offsets_from]. symmetry. apply map_snd_combine, L.
+    + destruct ty; reflexivity.
+  - cbn [scalars map scan_props]. rewrite scan_members_spec by exact L. cbv beta iota zeta.
+    inversion ND as [|? ? NI ND']; subst. fold (scalars ps).
+    rewrite IH; [|exact ND'|rewrite map_length, combine_length, L; apply Nat.min_id].
+    rewrite final_ty_step. f_equal. f_equal.
+    rewrite combine_map_combine, map_map. apply map_ext_in. intros [m o] I.
+    unfold scanG. cbn [fst snd offsets_from].
+    destruct (seqb n m) eqn:E; [|reflexivity].
+    apply String.eqb_eq in E. subst m.
+    rewrite (offsets_from_none bin n ps _ NI).
+    assert (Ex : existsb (seqb n) ms = true).
+    { apply existsb_exists. exists n. split; [eapply in_combine_l; exact I|apply String.eqb_refl]. }
+    destruct ty; cbn [final_ty first_ty upd_ty]; rewrite ?Ex; reflexivity.
+Qed.
+
+(* GROUPS.  Under distinct property names, a vector reader for members ms is built exactly when every member is
+   declared with the type t of the first declared member; its offsets are the members' layout offsets, its type t. *)
+Theorem groups_become_attributes_proof : forall bin attr ms (ps : vprops),
+  NoDup (names ps) ->
+  build_vec bin attr ms (scalars ps) =
+  Ok (match first_ty ms ps with
+      | Some t => option_map (fun os => {| b_attr := attr; b_names := ms; b_offs := os; b_ty := t; b_v1 := false |})
+                             (all_some (map (member_off bin ps t) ms))
+      | None => None
+      end).
+Proof.
+  intros bin attr ms ps ND. unfold build_vec.
+  rewrite (scan_props_spec bin ms ps 0 (map (fun _ : string => @None nat) ms) None ND (map_length _ _)). cbn [rbind final_ty].
+  assert (E : map (scanG bin ps 0 (first_ty ms ps)) (combine ms (map (fun _ : string => @None nat) ms)) =
+              map (fun m => match offsets bin ps m with
+                            | Some (c, t') => if osty_eqb (first_ty ms ps) t' then Some c else None
+                            | None => None end) ms).
+  { generalize (first_ty ms ps). intros tf. induction ms as [|m ms IHm]; [reflexivity|].
+    cbn [map combine]. rewrite IHm. reflexivity. }
+  rewrite E. destruct (first_ty ms ps) as [t|]; cbn [osty_eqb].
+  - unfold member_off. destruct (all_some _); reflexivity.
+  - destruct (all_some _); reflexivity.
+Qed.
+
+(* colour groups (IgnorableW): the four-member reader when red, green, blue and alpha share one type, otherwise the
+   red-green-blue reader alone, wherever alpha is declared (behaviour after 04b414a and 473a5bb) *)
+Theorem colour_fallback_proof : forall bin g r gn b a (ps : vprops),
+  g_members g = [r; gn; b; a] -> g_ignorable_w g = true -> NoDup (names ps) ->
+  build_group bin g (scalars ps) =
+  Ok (match vec_reader bin (g_attr g) [r; gn; b; a] ps with
+      | Some x => Some x
+      | None => vec_reader bin (g_attr g) [r; gn; b] ps
+      end).
+Proof.
+  intros bin g r gn b a ps M W ND. unfold build_group. rewrite M, W.
+  rewrite (groups_become_attributes_proof bin (g_attr g) [r; gn; b; a] ps ND). cbn [rbind].
+  fold (vec_reader bin (g_attr g) [r; gn; b; a] ps).
+  destruct (vec_reader bin (g_attr g) [r; gn; b; a] ps); [reflexivity|].
+  cbn [firstn]. rewrite (groups_become_attributes_proof bin (g_attr g) [r; gn; b] ps ND). reflexivity.
+Qed.
